@@ -160,3 +160,24 @@ def dead_scc_family():
                     'spec': {'start': 'S', 'domains': D, 'nonterminals': {'S': [], 'X': [], 'Y': []},
                              'terminals': {'a': [], 'b': [], 'c': [], 'd': [], 'e': []}, 'rules': rules}})
     return out
+
+
+def patterned_family(size=4):
+    """recursive grammars whose base-case factor is given as a PatternedTensor with a sparsity pattern (the iterate's pattern grows
+    from one iteration to the next).  'patterned': {terminal: 'diag'} -- weights on the diagonal, semiring zero elsewhere"""
+    D = {'T': size}       # four values: paths of length 3 matter, so the iteration has not converged yet when the pattern stops growing
+    out = []
+    out.append({'name': 'closure_diag_base', 'linear': True, 'patterned': {'eq': 'diag'},
+                'spec': {'start': 'S', 'domains': D, 'nonterminals': {'S': [], 'X': ['T', 'T']},
+                         'terminals': {'i': ['T'], 'f': ['T'], 'eq': ['T', 'T'], 't': ['T', 'T']},
+                         'rules': [{'lhs': 'S', 'nodes': ['T', 'T'], 'edges': [{'label': 'i', 'att': [0]}, {'label': 'X', 'att': [0, 1]}, {'label': 'f', 'att': [1]}], 'ext': []},
+                                   {'lhs': 'X', 'nodes': ['T', 'T'], 'edges': [{'label': 'eq', 'att': [0, 1]}], 'ext': [0, 1]},
+                                   {'lhs': 'X', 'nodes': ['T', 'T', 'T'], 'edges': [{'label': 't', 'att': [0, 2]}, {'label': 'X', 'att': [2, 1]}], 'ext': [0, 1]}]}})
+    out.append({'name': 'vector_diag_step', 'linear': True, 'patterned': {'t': 'diag'},
+                'spec': {'start': 'S', 'domains': D, 'nonterminals': {'S': [], 'X': ['T']},
+                         'terminals': {'s': ['T'], 't': ['T', 'T'], 'u': ['T', 'T'], 'e': ['T']},
+                         'rules': [{'lhs': 'S', 'nodes': ['T'], 'edges': [{'label': 's', 'att': [0]}, {'label': 'X', 'att': [0]}], 'ext': []},
+                                   {'lhs': 'X', 'nodes': ['T', 'T'], 'edges': [{'label': 't', 'att': [0, 1]}, {'label': 'X', 'att': [1]}], 'ext': [0]},
+                                   {'lhs': 'X', 'nodes': ['T', 'T'], 'edges': [{'label': 'u', 'att': [0, 1]}, {'label': 'X', 'att': [1]}], 'ext': [0]},
+                                   {'lhs': 'X', 'nodes': ['T'], 'edges': [{'label': 'e', 'att': [0]}], 'ext': [0]}]}})
+    return out
